@@ -1504,3 +1504,41 @@ package query
 //@   loop 1 invariant childRuns == old(childRuns)
 //@   modifies *
 //@   modifies childRuns, childRunCond
+
+// ---------------------------------------------------------------------------------------------
+// C04: set operators compare rows by their comparison keys. EXCEPT keeps, in order, the left rows whose key is not the
+// key of any right row (only the first of equal keys unless ALL); INTERSECT those whose key is the key of some right row.
+//@ func (*View).GenerateComparisonKeys
+//@   trusted assumed summary: one key per row, built by SerializeComparisonKeys from the row's (selected) values in parallel workers; rows are not touched
+//@   ensures result == nil ==> len(view.comparisonKeysInEachRecord) == len(view.RecordSet)
+//@   ensures view.RecordSet == old(view.RecordSet)
+//@   modifies view.comparisonKeysInEachRecord, fresh, looseKeys, strictKeys, keyBufsOut
+//@ spec def isRightKey(calc *View, k string) bool = exists(j, 0, len(calc.comparisonKeysInEachRecord), calc.comparisonKeysInEachRecord[j] == k)
+//@ func (*View).Except
+//@   property C04
+//@   requires view != nil && calcView != nil && view != calcView
+//@   ensures [kept-rows-are-left-rows-whose-key-is-no-right-key] err == nil ==> forall(q, 0, len(view.RecordSet),
+//@       exists(i, 0, old(len(view.RecordSet)), view.RecordSet[q] == old(view.RecordSet)[i]))
+//@   loop 1 invariant forall(j, 0, $i, has(keys, calcView.comparisonKeysInEachRecord[j]) && keys[calcView.comparisonKeysInEachRecord[j]])
+//@   loop 1 invariant forallv(k, string, has(keys, k) && keys[k] ==> exists(j, 0, $i, calcView.comparisonKeysInEachRecord[j] == k))
+//@   loop 1 modifies fresh
+//@   loop 2 invariant 0 <= $i && $i <= len(view.comparisonKeysInEachRecord) && fresh(records) && view.RecordSet == old(view.RecordSet) && len(view.comparisonKeysInEachRecord) == len(view.RecordSet)
+//@   loop 2 invariant forall(j, 0, len(calcView.comparisonKeysInEachRecord), has(keys, calcView.comparisonKeysInEachRecord[j]) && keys[calcView.comparisonKeysInEachRecord[j]])
+//@   loop 2 invariant [kept-so-far-are-left-rows-whose-key-is-no-right-key] forall(q, 0, len(records),
+//@       exists(i, 0, $i, records[q] == view.RecordSet[i] && !isRightKey(calcView, view.comparisonKeysInEachRecord[i])))
+//@   loop 2 modifies fresh
+//@   modifies *
+//@ func (*View).Intersect
+//@   property C04
+//@   requires view != nil && calcView != nil && view != calcView
+//@   ensures [kept-rows-are-left-rows] err == nil ==> forall(q, 0, len(view.RecordSet), exists(i, 0, old(len(view.RecordSet)), view.RecordSet[q] == old(view.RecordSet)[i]))
+//@   loop 1 invariant 0 <= $i && $i <= len(calcView.comparisonKeysInEachRecord)
+//@   loop 1 invariant forall(j, 0, $i, has(keys, calcView.comparisonKeysInEachRecord[j]) && keys[calcView.comparisonKeysInEachRecord[j]])
+//@   loop 1 invariant forallv(k, string, has(keys, k) ==> exists(j, 0, $i, calcView.comparisonKeysInEachRecord[j] == k))
+//@   loop 1 modifies fresh
+//@   loop 2 invariant 0 <= $i && $i <= len(view.comparisonKeysInEachRecord) && fresh(records) && view.RecordSet == old(view.RecordSet) && len(view.comparisonKeysInEachRecord) == len(view.RecordSet)
+//@   loop 2 invariant forallv(k, string, has(keys, k) ==> isRightKey(calcView, k))
+//@   loop 2 invariant [kept-so-far-are-left-rows-whose-key-is-a-right-key] forall(q, 0, len(records),
+//@       exists(i, 0, $i, records[q] == view.RecordSet[i] && isRightKey(calcView, view.comparisonKeysInEachRecord[i])))
+//@   loop 2 modifies fresh
+//@   modifies *
